@@ -23,6 +23,11 @@ func (p *Prog) recovering(fn *ssa.Function) (bool, string) {
 		case *ssa.Defer:
 			mc, ok := x.Call.Value.(*ssa.MakeClosure)
 			if !ok {
+				// a named function deferred directly, handed the address of the
+				// named error result: `defer recoverX(&res, &err)`
+				if sc := x.Call.StaticCallee(); sc != nil && inModule(sc) && sc.Blocks != nil {
+					return p.namedRecovers(fn, x, sc)
+				}
 				return false, ""
 			}
 			cl := mc.Fn.(*ssa.Function)
@@ -96,6 +101,60 @@ func (p *Prog) closureRecovers(fn *ssa.Function, mc *ssa.MakeClosure, cl *ssa.Fu
 			}
 			if s := p.errorfSentinel(st.Val); s != "" {
 				return true, s
+			}
+		}
+	}
+	return false, ""
+}
+
+// namedRecovers: the deferred named function calls recover() itself and, on
+// the branch where the recovered value is not nil, stores a sentinel-wrapping
+// error through the pointer parameter that the defer statement binds to the
+// address of fn's named error result.
+func (p *Prog) namedRecovers(fn *ssa.Function, d *ssa.Defer, rf *ssa.Function) (bool, string) {
+	res := fn.Signature.Results()
+	if res.Len() == 0 || !isErrorType(res.At(res.Len()-1).Type()) || res.At(res.Len()-1).Name() == "" {
+		return false, ""
+	}
+	errName := res.At(res.Len() - 1).Name()
+	errIdx := -1
+	for i, a := range d.Call.Args {
+		if al, ok := a.(*ssa.Alloc); ok && al.Comment == errName {
+			errIdx = i
+		}
+	}
+	if errIdx < 0 || errIdx >= len(rf.Params) {
+		return false, ""
+	}
+	errP := rf.Params[errIdx]
+	var rec *ssa.Call
+	for _, b := range rf.Blocks {
+		for _, ins := range b.Instrs {
+			if c, ok := ins.(*ssa.Call); ok {
+				if bi, ok := c.Call.Value.(*ssa.Builtin); ok && bi.Name() == "recover" {
+					rec = c
+				}
+			}
+		}
+	}
+	if rec == nil {
+		return false, ""
+	}
+	for _, b := range rf.Blocks {
+		okBranch := false
+		for _, f := range factsAt(b) {
+			if _, _, _, notNil := typeFacts([]Fact{f}, rec); notNil {
+				okBranch = true
+			}
+		}
+		if !okBranch {
+			continue
+		}
+		for _, ins := range b.Instrs {
+			if st, ok := ins.(*ssa.Store); ok && st.Addr == ssa.Value(errP) {
+				if s := p.errorfSentinel(st.Val); s != "" {
+					return true, s
+				}
 			}
 		}
 	}
